@@ -197,8 +197,8 @@ func isHeld(code string) bool {
 	return false
 }
 
-// runHeld starts `held` in a goroutine, issues `rel`, then joins `held` (under the watchdog).
-func runHeld(qu queue, held, rel op) (rRel, rHeld obs, hung bool) {
+// runHeld starts `held` in a goroutine, issues the releasing calls, then joins `held` (under the watchdog).
+func runHeld(qu queue, held op, rels []op) (rRels []obs, rHeld obs, hung bool) {
 	started := make(chan struct{})
 	res := make(chan obs, 1)
 	go func() {
@@ -215,34 +215,83 @@ func runHeld(qu queue, held, rel op) (rRel, rHeld obs, hung bool) {
 	for i := 0; i < 40; i++ { // give it a chance to really block first (either order is a legal schedule with the same results)
 		runtime.Gosched()
 	}
-	rRel, hung = qu.apply(rel)
-	if hung {
-		return rRel, obs{"other", otherHang}, true
+	for k, rel := range rels {
+		r, h := qu.apply(rel)
+		rRels = append(rRels, r)
+		if h {
+			for len(rRels) < len(rels) {
+				rRels = append(rRels, obs{"other", otherHang})
+			}
+			return rRels, obs{"other", otherHang}, true
+		}
+		if k+1 < len(rels) { // let the sleeping add-anyway notice the Close before the slot is freed (either order is legal)
+			for i := 0; i < 40; i++ {
+				runtime.Gosched()
+			}
+		}
 	}
 	t := time.NewTimer(hangTimeout)
 	defer t.Stop()
 	select {
 	case rHeld = <-res:
 	case <-t.C:
-		return rRel, obs{"other", otherHang}, true
+		return rRels, obs{"other", otherHang}, true
 	}
 	qu.noteHeld(held, rHeld)
-	return rRel, rHeld, false
+	return rRels, rHeld, false
 }
 
 // ---- running one history ----
 
 var hangs = map[string]int{} // per queue type: calls that never returned
 
-func runCase(e *vh.Env, sp spec, ops []op, gen string) {
+func runCase(e *vh.Env, sp spec, ops []op, gen string) { runCaseX(e, sp, ops, gen, false, "") }
+
+type stepRec struct {
+	o    op
+	r    obs
+	note string
+}
+
+// runs: maximal groups of steps with the same call and the same kind of answer whose items are consecutive integers
+func compress(st []stepRec) [][2]int { // (first index, count)
+	var out [][2]int
+	for i := 0; i < len(st); {
+		j := i + 1
+		for j < len(st) {
+			k := int64(j - i)
+			a, b := st[i], st[j]
+			if b.note != "" || a.note != "" || b.o.code != a.o.code || b.o.pri != a.o.pri || b.r.tag != a.r.tag {
+				break
+			}
+			if a.o.x != 0 || b.o.x != 0 {
+				if a.o.x <= 0 || b.o.x != a.o.x+k { // boundary values (negative ids) are never part of a run
+					break
+				}
+			}
+			if a.r.tag == "item" {
+				if a.r.v <= 0 || b.r.v != a.r.v+k {
+					break
+				}
+			} else if b.r.v != a.r.v {
+				break
+			}
+			j++
+		}
+		out = append(out, [2]int{i, j - i})
+		i = j
+	}
+	return out
+}
+
+// runCaseX: runLength = emit the history run-length encoded (C12_Runs.v); class = class label override
+func runCaseX(e *vh.Env, sp spec, ops []op, gen string, runLength bool, class string) {
 	qu := sp.build()
-	steps := make([]string, 0, len(ops))
-	human := make([]string, 0, len(ops))
+	var st []stepRec
 	done := ops[:0:0]
 	handed, refused := 0, 0
 	record := func(o op, r obs, note string) {
-		steps = append(steps, "("+qu.coqOp(o)+", "+r.coq()+")")
-		human = append(human, qu.goOp(o)+" = "+r.String()+note)
+		st = append(st, stepRec{o, r, note})
 		switch r.tag {
 		case "item":
 			handed++
@@ -250,24 +299,36 @@ func runCase(e *vh.Env, sp spec, ops []op, gen string) {
 			refused++
 		}
 	}
+	const heldNote = "   [this call was started BEFORE the previous line's call(s), while it had to block, and returned after them]"
 	for i := 0; i < len(ops); i++ {
 		o := ops[i]
 		if isHeld(o.code) {
 			plain := o
 			plain.code = o.code[1:]
 			if i+1 < len(ops) && !isHeld(ops[i+1].code) && qu.canHold(plain, ops[i+1]) {
-				rel := ops[i+1]
-				i++
-				rRel, rHeld, hung := runHeld(qu, plain, rel)
-				done = append(done, o, rel)
-				record(rel, rRel, "")
-				record(plain, rHeld, "   [this call was started BEFORE the previous line's call, while it had to block, and returned after it]")
+				rels := []op{ops[i+1]}
+				// an add-anyway asleep across Close AND the pop that then frees a slot: it must still be refused
+				if plain.code[0] == 'w' && ops[i+1].code == "c" && i+2 < len(ops) && ops[i+2].code == "y" {
+					rels = append(rels, ops[i+2])
+				}
+				i += len(rels)
+				rRels, rHeld, hung := runHeld(qu, plain, rels)
+				done = append(done, o)
+				done = append(done, rels...)
+				for k, rel := range rels {
+					record(rel, rRels[k], "")
+				}
+				record(plain, rHeld, heldNote)
 				if hung {
 					hangs[sp.kind]++
 					qu.release()
 					break
 				}
-				if rRel.tag == "other" || rHeld.tag == "other" {
+				bad := rHeld.tag == "other"
+				for _, r := range rRels {
+					bad = bad || r.tag == "other"
+				}
+				if bad {
 					break
 				}
 				continue
@@ -290,9 +351,36 @@ func runCase(e *vh.Env, sp spec, ops []op, gen string) {
 	if caps == nil {
 		caps = []int{}
 	}
+	var coq string
+	var human []string
+	if runLength {
+		runs := compress(st)
+		parts := make([]string, len(runs))
+		for k, rn := range runs {
+			f := st[rn[0]]
+			parts[k] = fmt.Sprintf("((%s, %s), %d%%nat)", qu.coqOp(f.o), f.r.coq(), rn[1])
+			if rn[1] == 1 {
+				human = append(human, qu.goOp(f.o)+" = "+f.r.String()+f.note)
+			} else {
+				l := st[rn[0]+rn[1]-1]
+				human = append(human, fmt.Sprintf("%d x  %s = %s  ...  %s = %s", rn[1], qu.goOp(f.o), f.r.String(), qu.goOp(l.o), l.r.String()))
+			}
+		}
+		coq = strings.Replace(sp.coqHead(), "C", "CRun", 1) + " " + vh.CoqList(parts)
+	} else {
+		steps := make([]string, len(st))
+		for k, x := range st {
+			steps[k] = "(" + qu.coqOp(x.o) + ", " + x.r.coq() + ")"
+			human = append(human, qu.goOp(x.o)+" = "+x.r.String()+x.note)
+		}
+		coq = sp.coqHead() + " " + vh.CoqList(steps)
+	}
+	if class == "" {
+		class = sp.class()
+	}
 	e.Emit(vh.Case{
-		Coq:        sp.coqHead() + " " + vh.CoqList(steps),
-		Class:      sp.class(),
+		Coq:        coq,
+		Class:      class,
 		Nontrivial: handed > 0 || refused > 0,
 		Replay:     sp.replay(done),
 		Desc:       map[string]interface{}{"queue": kindName[sp.kind], "capacity": caps, "generator": gen, "history": human},
@@ -574,6 +662,115 @@ func genHold(r *rand.Rand, kind string) (spec, []op) {
 	return sp, ops
 }
 
+// class "backlog sizes x operation": h items come and go, a backlog of exactly b consecutive items is built, the add under
+// test is issued (plus a second prior / ordinary add), everything is drained; emitted run-length encoded.
+var backlogSizes = []int{0, 1, 2, 7, 8, 9, 15, 16, 17, 31, 32, 33, 63, 64, 65, 127, 128, 129, 255, 256, 257, 1023, 1024, 1025}
+
+type addKind struct{ kind, code, fill string } // the add under test and the ordinary add that builds the backlog of that level
+
+var addKinds = []addKind{
+	{"q", "a", "a"}, {"q", "p", "a"}, {"q", "w", "a"},
+	{"async", "a", "a"}, {"async", "p", "a"}, {"async", "w", "a"},
+	{"mux", "a", "a"}, {"mux", "p", "a"}, {"mux", "w", "a"},
+	{"mq", "ac", "ac"}, {"mq", "pc", "ac"}, {"mq", "wc", "ac"}, {"mq", "ar", "ar"}, {"mq", "pr", "ar"}, {"mq", "wr", "ar"},
+	{"sync", "u", "u"}, {"pri", "u", "u"},
+}
+
+func genBacklog(ak addKind, b, h, variant int) (spec, []op) {
+	id := int64(0)
+	var ops []op
+	add := func(code string, n int) {
+		for i := 0; i < n; i++ {
+			id++
+			ops = append(ops, op{code: code, x: id})
+		}
+	}
+	pop := "y"
+	switch ak.kind {
+	case "sync":
+		pop = "t"
+	case "pri":
+		pop = "o"
+	}
+	pops := func(n int) {
+		for i := 0; i < n; i++ {
+			ops = append(ops, op{code: pop})
+		}
+	}
+	sp := spec{kind: ak.kind}
+	switch ak.kind {
+	case "mq":
+		sp.caps = []int{0, 0}
+	case "sync":
+	case "pri":
+		sp.caps = []int{b + h + 8}
+	default:
+		sp.caps = []int{0}
+		if variant%4 == 3 && ak.code != "p" {
+			sp.caps = []int{b + 1} // the add under test is the last one the bound lets in
+		}
+	}
+	if variant%2 == 0 { // h come and go first, then the backlog
+		add(ak.fill, h)
+		pops(h)
+		add(ak.fill, b)
+	} else { // b+h queued, h popped
+		add(ak.fill, b+h)
+		pops(h)
+	}
+	// the add under test
+	id += 1000
+	t := op{code: ak.code, x: id}
+	if ak.kind == "pri" { // "prior" for the priority queue: a higher priority; then an equal and a lower one
+		t.pri = 5
+	}
+	ops = append(ops, t)
+	switch {
+	case ak.kind == "pri":
+		ops = append(ops, op{code: "u", x: id + 1, pri: 0}, op{code: "u", x: id + 2, pri: -1}, op{code: "l"})
+	case ak.kind == "sync":
+		ops = append(ops, op{code: "l"})
+	case variant%3 == 0 && len(sp.caps) > 0 && sp.caps[0] == 0: // one more of the other kind behind / in front of it
+		other := map[string]string{"a": "p", "p": "a", "w": "p", "ac": "pc", "pc": "ac", "wc": "pc", "ar": "pr", "pr": "ar", "wr": "pr"}[ak.code]
+		ops = append(ops, op{code: other, x: id + 1})
+	}
+	if ak.kind != "pri" && variant%5 == 1 {
+		ops = append(ops, op{code: "c"})
+	}
+	pops(b + 4)
+	return sp, ops
+}
+
+// shrink path: fill to 1025, drain to 1, refill across the old growth points with prior adds in between
+func genShrink(ak addKind) (spec, []op) {
+	sp, ops := genBacklog(addKind{ak.kind, ak.fill, ak.fill}, 1024, 0, 0)
+	ops = ops[:1025]
+	pop := ops[len(ops)-1]
+	pop = op{code: map[string]string{"sync": "t", "pri": "o"}[ak.kind]}
+	if pop.code == "" {
+		pop.code = "y"
+	}
+	for i := 0; i < 1024; i++ {
+		ops = append(ops, pop)
+	}
+	id := int64(5000)
+	for _, n := range []int{14, 1, 16, 1, 31} {
+		for i := 0; i < n; i++ {
+			id++
+			ops = append(ops, op{code: ak.fill, x: id})
+		}
+		id += 100
+		ops = append(ops, op{code: ak.code, x: id, pri: 0})
+	}
+	for i := 0; i < 80; i++ {
+		ops = append(ops, pop)
+	}
+	if ak.kind == "pri" {
+		sp.caps = []int{2000}
+	}
+	return sp, ops
+}
+
 // a stream of pushes with many ties and monotone runs, then a full drain
 func genPriStream(r *rand.Rand) []op {
 	n := 6 + r.Intn(15)
@@ -702,7 +899,7 @@ func corpus() []string {
 		"mq;1,0;ar1 ac2 ac3 pc4 tc tl o c o tl y y y tc il tl il ic", "mq;2,1;tl tc tl ac1 ar2 il ic", "mq;1,1;wc1 wc2 wr3 wr4 y y c wc5 wr6",
 		"mq;0,2;pr1 pr2 ar3 ar4 pr5 y y y y y", "mq;-1,-1;ac1 ac2 ar3 ar4 o o o o",
 		"mq;1,1;ac-1 ac2 ar-1 pr-2 o o o c pc-1 y", "mq;0,0;ar-1 ac-1 ar-3 ac-4 y y y y", "sync;;u-2 u-3 u-4 u-5 l o t o t c t",
-		"mq;1,1;ac1 hwc2 y ar3 hwr4 o hwr5 c y", "mq;1,1;ac1 ar2 hwr3 y y hy pc4 ho ar5 hy c", "mq;0,0;ho ac1 hy ar2 ho pr3 ho c ic il tl il",
+		"mq;1,1;ac1 hwc2 c y y", "mq;2,1;ar1 hwr2 c y y ar3", "mq;1,1;ac1 hwc2 y ar3 hwr4 o hwr5 c y", "mq;1,1;ac1 ar2 hwr3 y y hy pc4 ho ar5 hy c", "mq;0,0;ho ac1 hy ar2 ho pr3 ho c ic il tl il",
 		"mux;1;a1 c i y i", "sync;;ho u1 ho c ho", "sync;;u1 o ho u2 t ho c t",
 		"sync;;c u1 l t o", "sync;;u1 c t t", "sync;;u1 u2 l c u3 l o t t o", "sync;;t l u1 t t",
 		"pri;2;u0:1 u0:2 o", "pri;0;u0:1 o l", "pri;-1;u0:1 o", "pri;8;u7:1 u7:2 u7:3 u7:4 o u7:5 o o o",
@@ -835,6 +1032,30 @@ func main() {
 			}
 		}
 		e.Meta["held_call_streams"] = nheld
+
+		// (2c) backlog sizes x operation (run-length encoded)
+		nb := 0
+		for _, ak := range addKinds {
+			if focus != "" && focus != ak.kind {
+				continue
+			}
+			for bi, b := range backlogSizes {
+				hs := []int{0, 1, 3, b / 2}
+				if b > 300 && !big { // quick: the three largest backlogs once per add kind, with the head of a ring off slot 0
+					hs = []int{3}
+				}
+				for hi, h := range hs {
+					sp, ops := genBacklog(ak, b, h, bi+hi+len(ak.code))
+					runCaseX(e, sp, ops, "backlog", true, "backlog "+kindName[ak.kind])
+					nb++
+				}
+			}
+			sp, ops := genShrink(ak)
+			runCaseX(e, sp, ops, "backlog-shrink", true, "backlog "+kindName[ak.kind])
+			nb++
+		}
+		e.Meta["backlog_cases"] = nb
+		lap("backlog")
 
 		// (3) PriQueue priority streams: a roomy queue, 6..20 pushes drawn from a small range with many ties and
 		// descending / ascending runs (so that the heap gets inner nodes of every shape), a few pops in between, then pop everything
